@@ -10,7 +10,10 @@
 //   - guarded-by rows: for every field of a struct of package spine (and of
 //     the two model helper receivers named in C17's anchors) that is written
 //     after construction, every access with the set of mutexes that are
-//     (must-)held there.
+//     (must-)held there;
+//   - address escapes of shared fields (escapes.go) and, for slice- and map-typed
+//     fields, header escapes vs in-place writers of the backing store
+//     (containers.go).
 //
 // Output: <out>/Locks.lean (Lean tables, deterministic, human-readable) and
 // <out>/locks.json (the same facts with witnesses, for the harness/evidence).
